@@ -45,7 +45,7 @@ CFG = {
                              calls=('SUM(', 'IF('), parens=True)),
     'lit': dict(Operands='AllOperands', Binary='LitBinary', Prefix='{"u-"}',
                 Postfix='{"%"}', Calls='{}', Parens='FALSE',
-                counts=dict(nopnd=26, nbin=4, npre=1, npost=1, calls=(), parens=False)),
+                counts=dict(nopnd=27, nbin=4, npre=1, npost=1, calls=(), parens=False)),
     'sim': dict(Operands='AllOperands', Binary='AllBinary', Prefix='{"u-", "u+"}',
                 Postfix='{"%"}', Calls='{"SUM(", "IF("}', Parens='TRUE', counts=None),
 }
